@@ -108,6 +108,10 @@ func RulesFor(prop, tier string) []*Rule {
 		if r.Thorough && tier != "thorough" {
 			continue
 		}
+		if prop == "ALL" { // development: every rule once (used to test benign changes against the whole rule set)
+			out = append(out, r)
+			continue
+		}
 		for _, p := range r.Props {
 			if p == prop {
 				out = append(out, r)
